@@ -1574,7 +1574,8 @@ static void setTypes(TokenList &tokenList)
     for (Token *tok = tokenList.front(); tok; tok = tok->next()) {
         if (Token::simpleMatch(tok, "sizeof (")) {
             for (Token *typeToken = tok->tokAt(2); typeToken->str() != ")"; typeToken = typeToken->next()) {
-                if (typeToken->type())
+                // Token keeps the Variable/Function/Enumerator/Type pointer in one union: do not overwrite a link
+                if (typeToken->type() || typeToken->variable() || typeToken->function() || typeToken->enumerator())
                     continue;
                 typeToken->type(typeToken->scope()->findType(typeToken->str()));
             }
